@@ -154,10 +154,13 @@ def _mut_applied_prev(fn):
     return cnt
 
 
-@unit(name='setCodeVersion', relpath=MOD, qual=['SyncObj.setCodeVersion'], props=['C17'],
-      doc='O17.4: raises for a version above the own code or below the enabled one; otherwise submits exactly one VERSION command',
+@unit(name='setCodeVersion', relpath=MOD, qual=['SyncObj.setCodeVersion', 'SyncObj._setCodeVersion'], props=['C17'],
+      cases=[dict(via='api'), dict(via='utility')],
+      doc='O17.4: raises for a version above the own code or below the enabled one; otherwise submits exactly one VERSION command - '
+          'through the public call and through the admin-utility wrapper _setCodeVersion(args, callback) alike (the exception of a '
+          'rejected admin request is turned into the answer by TCPTransport._onUtilityMessage)',
       canaries=[('drop-lower-check', lambda mod: mutate_function(mod, 'SyncObj.setCodeVersion', _mut_drop_lower), ['O17.4.lower-version-rejected'])])
-def set_code_version(ctx):
+def set_code_version(ctx, via='api'):
     so = SO(ctx, UNIVERSE())
     so.assume_inv()
     nv = FreshInt('newVersion')
@@ -167,7 +170,10 @@ def set_code_version(ctx):
     reg['SyncObj._applyCommand'] = applyCommand_summary
     I = make_interp(ctx, so, registry=reg)
     old = so.snapshot()
-    k, v = run_method(I, so, 'SyncObj.setCodeVersion', [nv, Callable_('user:cb')])
+    if via == 'utility':
+        k, v = run_method(I, so, 'SyncObj._setCodeVersion', [ctx.alloc(PList([nv])), Callable_('user:cb')])
+    else:
+        k, v = run_method(I, so, 'SyncObj.setCodeVersion', [nv, Callable_('user:cb')])
     sub = ctx.glist('submitted')
     sv, ev = so.get('selfCodeVersion'), so.get('enabledCodeVersion')
     if k == 'raise':
